@@ -732,9 +732,9 @@ pub struct C15Outputs;
 
 fn out_cfg() -> AspCfg {
     AspCfg {
-        preds: vec![("p".into(), 1), ("q".into(), 2), ("s".into(), 0), ("notp".into(), 1), ("nota".into(), 0), ("_r".into(), 1)],
+        preds: vec![("p".into(), 1), ("q".into(), 2), ("s".into(), 0), ("notp".into(), 1), ("nota".into(), 0), ("_r".into(), 1), ("existsPath".into(), 1), ("forallq".into(), 0), ("andy".into(), 1), ("orx".into(), 0)],
         vars: vec!["X".into(), "Y".into(), "V1".into(), "I".into(), "Z".into(), "N0".into()],
-        syms: vec!["a".into(), "_c".into(), "nota".into()],
+        syms: vec!["a".into(), "_c".into(), "nota".into(), "existsY".into(), "forall_".into(), "and1".into(), "ora".into()],
         num_lo: -3,
         num_hi: 5,
         term_depth: 2,
@@ -820,12 +820,12 @@ pub struct C15TheoryOutputs;
 
 fn theory_cfg() -> gf::FolCfg {
     gf::FolCfg {
-        preds: vec![("p".into(), 1), ("q".into(), 1), ("r".into(), 2), ("s".into(), 0), ("notp".into(), 1), ("_r".into(), 1)],
+        preds: vec![("p".into(), 1), ("q".into(), 1), ("r".into(), 2), ("s".into(), 0), ("notp".into(), 1), ("_r".into(), 1), ("existsp".into(), 1), ("forallq".into(), 0)],
         // identifier shapes the grammar accepts: leading underscores, names that are prefixes of each other
         gvars: vec!["X".into(), "Y".into(), "_X".into(), "I".into()],
         ivars: vec!["X".into(), "I".into(), "_I".into(), "N1".into()],
         svars: vec!["S".into(), "_S".into()],
-        syms: vec!["a".into(), "_c".into(), "nota".into(), "andy".into()],
+        syms: vec!["a".into(), "_c".into(), "nota".into(), "andy".into(), "existsY".into(), "forallz".into(), "or1".into()],
         fcs: vec![("c".into(), crate::dom::Sort::G), ("n".into(), crate::dom::Sort::I)],
         num_lo: -2,
         num_hi: 3,
@@ -994,6 +994,74 @@ impl Check for C15Outputs {
             program: j["program"].as_str()?.parse().ok()?,
             transform: Transform::parse(j["transform"].as_str()?)?,
             raw: raw_from_json(&j["raw"])?,
+        })
+    }
+}
+
+// ---------------------------------------------------------------------------------------
+// the target-language front end: formula text in the usual notation is read as the formula it denotes
+
+pub struct FolFrontEnd;
+
+#[derive(Clone, Debug)]
+pub struct FolFrontCase {
+    pub formula: fol::Formula,
+    pub via_cli: bool,
+}
+
+impl Check for FolFrontEnd {
+    type Case = FolFrontCase;
+    fn name(&self) -> &'static str {
+        "fol-front-end"
+    }
+    fn cases(&self, tier: Tier) -> usize {
+        tier.pick(150_000, 3_000_000)
+    }
+    fn strategy(&self, _tier: Tier) -> BoxedStrategy<FolFrontCase> {
+        let c = gf::FolCfg { depth: 5, ..fol_cfg() };
+        (gf::formula(&c), 0u16..2000).prop_map(|(formula, k)| FolFrontCase { formula, via_cli: k == 0 }).boxed()
+    }
+    fn rule(&self) -> String {
+        "random formula (depth up to 5, all connectives and quantifiers) written by the checker's own printer with as few parentheses as the conventions of the input language require (prefix operators > and > or > arrows; and/or left-associative; chains of -> and of <-> group to the right, chains of <- to the left; different arrows are not mixed without parentheses) - the conventions of the pinned operator table, which no document states; oracle: anthem reads the text as exactly that formula, and (1 in 2000) `anthem translate --with gamma` on the text prints gamma of the tree; non-trivial = the text has at least 6 characters fewer than the fully parenthesised one; distinct by text".into()
+    }
+    fn run(&self, case: &FolFrontCase) -> Outcome {
+        // bring the generated tree into the image of the parser first
+        let full = sp::formula(&case.formula, &Style::plain());
+        let Ok(f0) = full.parse::<fol::Formula>() else {
+            return Outcome::skip("generated formula not accepted");
+        };
+        let text = sp::formula(&f0, &Style::conventional());
+        let parsed: fol::Formula = match text.parse() {
+            Ok(f) => f,
+            Err(_) => return Outcome::fail("conventional-text-rejected", format!("C15: the formula text is rejected\n  text : {text}\n  meant: {full}")),
+        };
+        if parsed != f0 {
+            return Outcome::fail(
+                "text-read-differently",
+                format!("C15: the formula text is read as a different formula\n  text : {text}\n  meant: {full}\n  read : {}", sp::formula(&parsed, &Style::plain())),
+            );
+        }
+        if case.via_cli && f0.free_variables().is_empty() {
+            if let Some(bin) = crate::cli::anthem_bin() {
+                let r = crate::cli::run(&bin, &["translate", "--with", "gamma"], Some(&format!("{text}.\n")));
+                let expected = fol::Theory { formulas: vec![f0.clone()] }.gamma().to_string();
+                if r.code != Some(0) || r.stdout.trim() != expected.trim() {
+                    return Outcome::fail(
+                        "cli-differs-from-library",
+                        format!("C15: `anthem translate --with gamma` on the text differs from gamma of the tree\n  text: {text}\n  exit: {:?}\n  cli : {}\n  lib : {expected}", r.code, r.stdout),
+                    );
+                }
+            }
+        }
+        Outcome::pass(text.len() + 6 <= full.len(), hash64(&text)).label(format!("via_cli={}", case.via_cli))
+    }
+    fn describe(&self, case: &FolFrontCase) -> Value {
+        json!({"formula": sp::formula(&case.formula, &Style::plain()), "conventional": sp::formula(&case.formula, &Style::conventional()), "via_cli": case.via_cli})
+    }
+    fn from_replay(&self, j: &Value) -> Option<FolFrontCase> {
+        Some(FolFrontCase {
+            formula: j["formula"].as_str()?.parse().ok()?,
+            via_cli: j["via_cli"].as_bool()?,
         })
     }
 }
